@@ -139,10 +139,11 @@ def run_property(prop, harnesses, tier, seed, jobs=None, opts=None, out=sys.stdo
         mods[hn] = mod
         for shape in mod.instances(tier, prop):
             nb = shape.pop("_splitbits", 0)
+            sd = shape.pop("_splitdepth", None)      # number of leading forks whose outcomes are hashed (default nb + 2)
             if nb:
                 N = 2 ** nb
                 for i in range(N):
-                    tasks.append((hn, dict(shape, _split=[i, N, nb + 2], _cost=shape.get("_cost", 0) / N),
+                    tasks.append((hn, dict(shape, _split=[i, N, sd or (nb + 2)], _cost=shape.get("_cost", 0) / N),
                                   dict(opts, **getattr(mod, "OPTS", {}))))
             else:
                 tasks.append((hn, shape, dict(opts, **getattr(mod, "OPTS", {}))))
@@ -163,9 +164,13 @@ def run_property(prop, harnesses, tier, seed, jobs=None, opts=None, out=sys.stdo
         its = [pool.imap_unordered(_run_one, big, chunksize=1)] if big else []
         if small:
             its.append(pool.imap_unordered(_run_one, small, chunksize=max(1, min(64, len(small) // (jobs * 8)))))
+        prog = os.environ.get("SYMX_PROGRESS")
         for it in its:
             for r in it:
                 results.append(r)
+                if prog:
+                    with open(prog, "a") as pf:
+                        pf.write(f"{time.time() - t0:8.1f} {r['wall_s']:8.1f} {r['status']} {r.get('paths')} {json.dumps(r['shape'])}\n")
     agg = {"paths": 0, "forked_paths": 0, "infeasible": 0, "queries": 0, "solver_s": 0.0, "checks": 0, "forks": 0}
     covers, notes = {}, {}
     viols, known_hits, problems = [], [], []
